@@ -27,5 +27,6 @@ TightBound == Bound - conf.polling
 TooTight == (obj.exists /\ obj.deleting /\ obj.fin /\ up /\ ~stopping /\ Timed) => now <= gh.delat + TightBound
 NoF5 == ~Family_F5
 NoF18 == ~Family_F18
+NoF33 == ~Family_F33
 StuckCompletes == (obj.exists /\ obj.deleting /\ up /\ ~stopping) ~> (~obj.exists \/ ~up \/ stopping \/ now = Horizon)
 =============================================================================
